@@ -37,6 +37,7 @@ type solver struct {
 	queries    int
 	solveTime  time.Duration
 	timeoutMs  int
+	retries    int
 	bin        string
 	args       []string
 	errors     int
@@ -198,8 +199,13 @@ func (s *solver) readSexp() string {
 func (s *solver) check(assume *Term, neg bool) satResult {
 	t0 := time.Now()
 	s.queries++
+	cmd := ""
+	send := func(c string) {
+		cmd = c
+		s.send(c)
+	}
 	if assume == nil {
-		s.send("(check-sat)")
+		send("(check-sat)")
 	} else {
 		s.define(assume)
 		lit := assume.ref()
@@ -212,13 +218,30 @@ func (s *solver) check(assume *Term, neg bool) satResult {
 			if !v {
 				return resUnsat
 			}
-			s.send("(check-sat)")
+			send("(check-sat)")
 		} else if neg {
-			s.send("(check-sat-assuming ((not " + lit + ")))")
+			send("(check-sat-assuming ((not " + lit + ")))")
 		} else {
-			s.send("(check-sat-assuming (" + lit + "))")
+			send("(check-sat-assuming (" + lit + "))")
 		}
 	}
+	errsBefore := s.errors
+	res := s.readVerdict()
+	if res == resUnknown && s.errors == errsBefore && s.timeoutMs > 0 {
+		// a timeout (e.g. on a loaded machine): ask once more with four times
+		// the limit before giving the path up as inconclusive
+		s.retries++
+		s.send(fmt.Sprintf("(set-option :timeout %d)", 4*s.timeoutMs))
+		s.send(cmd)
+		res = s.readVerdict()
+		s.send(fmt.Sprintf("(set-option :timeout %d)", s.timeoutMs))
+	}
+	s.solveTime += time.Since(t0)
+	return res
+}
+
+// readVerdict reads the answer to a check-sat command.
+func (s *solver) readVerdict() satResult {
 	res := resUnknown
 	for {
 		line := s.readLine()
@@ -250,7 +273,6 @@ func (s *solver) check(assume *Term, neg bool) satResult {
 		}
 		break
 	}
-	s.solveTime += time.Since(t0)
 	return res
 }
 
